@@ -94,6 +94,7 @@ fn install_hook() {
 /// the trace survives the unwind.
 pub fn monitored<T>(script: Script, f: impl FnOnce() -> Result<T, Rec>, proj: impl FnOnce(&T) -> Proj) -> (Outcome, Vec<Event>) {
     install_hook();
+    let _active = crate::watch::guard();
     trace::begin(script);
     IN_RUN.with(|f| *f.borrow_mut() = true);
     LAST_PANIC.with(|p| *p.borrow_mut() = None);
@@ -134,6 +135,7 @@ where
     E: DeserializeError + std::fmt::Display,
 {
     install_hook();
+    let _active = crate::watch::guard();
     IN_RUN.with(|f| *f.borrow_mut() = true);
     LAST_PANIC.with(|p| *p.borrow_mut() = None);
     let p = p.clone();
@@ -149,6 +151,7 @@ where
 /// Run any closure with panics caught silently (for direct calls of functions under test).
 pub fn quiet_catch<T>(f: impl FnOnce() -> T) -> Result<T, String> {
     install_hook();
+    let _active = crate::watch::guard();
     let was = IN_RUN.with(|f| std::mem::replace(&mut *f.borrow_mut(), true));
     LAST_PANIC.with(|p| *p.borrow_mut() = None);
     let r = catch_unwind(AssertUnwindSafe(f));
@@ -164,6 +167,7 @@ where
     E: DeserializeError + std::fmt::Display,
 {
     install_hook();
+    let _active = crate::watch::guard();
     let (inst, _) = instrument(p);
     IN_RUN.with(|f| *f.borrow_mut() = true);
     LAST_PANIC.with(|p| *p.borrow_mut() = None);
